@@ -15,12 +15,17 @@
       for ANY history of operations the accumulated index is strictly increasing, contains every
       requested later point exactly once, every segment is the solution from the previous final
       state (override applied) under the parameters in force, refusal iff end <= reached.
-    It is FALSE of the code (hence of the faithful model) in two situations, each recorded as a known
+    It is FALSE of the code (hence of the faithful model) in ONE situation, recorded as a known
     finding with a machine-checked refutation below:
-      - a steady-state run in the history           ([C04_steady_refuted]);
-      - a rate law reading `time` after an override ([C04_nonautonomous_refuted]).
-    The [_partial] theorems carry exactly these guards: [Forall no_steady ops], and the start time
-    [h] of the solution being the integrator's (shifted) time, which is immaterial iff [flow] ignores it. *)
+      - a steady-state run in the history           ([C04_steady_refuted]).
+    The [_partial] theorems carry exactly this guard: [Forall no_steady ops] for whole histories;
+    the per-operation theorems are stated for every state satisfying [Inv2], the invariant that
+    [C04_history_invariant_partial] establishes for every state reachable without a steady-state run.
+    Three further defects were REPAIRED in /repo (fixes/C04-timeshift.diff, C04-override-twice.diff,
+    C04-override-time.diff); each is kept as a regression witness on the facts of the unrepaired code
+    ([C04_unrepaired_refuted], [C04_shifted_time_refuted]) while the theorems hold for the regenerated facts.
+    Rows are stated in ABSOLUTE time: [appended .. s s' h rest] says the new rows are
+    [(t + shift, flow p (h + shift) y0 (t - h))] with [h + shift == reached s]. *)
 From Coq Require Import QArith List Bool NArith.
 From Sim Require Import Integrator Simulator Protocol SimExec GenSimFacts SimProofs ProtocolProofs.
 Import ListNotations.
@@ -28,7 +33,7 @@ Open Scope Q_scope.
 
 Theorem C04_facts_pinned :
   gen_sim_facts =
-    mkSimFacts FrameAbs CmpLe FrameAbs CmpLe CmpGe true true false true false 100 1000 CmpLe CmpGt CmpLe true true.
+    mkSimFacts FrameAbs CmpLe FrameAbs CmpLe CmpGe true true false true false 100 1000 CmpLe CmpGt CmpLe true true true.
 Proof. vm_compute. reflexivity. Qed.
 Print Assumptions C04_facts_pinned.
 
@@ -121,6 +126,41 @@ Theorem C04_clear :
 Proof. exact (fun Y P U O flow solve_ok conv pupd yovr s ops => eq_refl). Qed.
 Print Assumptions C04_clear.
 
+(** segments chain -- refinement to the abstract flow specification.  For ANY solution map [flow] that
+    depends on its time arguments as rational numbers and satisfies the semigroup law of solutions, and a
+    solver that succeeds: after an accepted [simulate] from any reachable state the state the next segment
+    starts from is the solution in ABSOLUTE time from the state this segment started from (after an
+    override: from the overridden state, see [C04_override]) ... *)
+Theorem C04_state_after_simulate_partial :
+  forall (Y P : Type) (flow : P -> Q -> Y -> Q -> Y) (solve_ok : P -> Q -> Y -> Q -> bool),
+    (forall p t t' y d d', t == t' -> d == d' -> flow p t y d = flow p t' y d') ->
+    (forall p t y t1, solve_ok p t y t1 = true) ->
+    forall (s : sim Y P) (t_end : Q) (steps : option nat) (m : nat),
+    Inv2 Y P s -> has_errors Y P s = false -> n_points steps = S (S m) -> reached Y P s < t_end ->
+    exists s', simulate Y P flow solve_ok gen_sim_facts s t_end steps = (s', Done)
+      /\ Inv2 Y P s' /\ has_errors Y P s' = false /\ s_mp s' = s_mp s /\ reached Y P s' == t_end
+      /\ i_y0 (s_int s') = flow (s_mp s) (reached Y P s) (i_y0 (s_int s)) (t_end - reached Y P s).
+Proof. exact (fun Y P flow solve_ok => state_after_simulate Y P flow solve_ok gen_sim_facts (good_of_pinned _ C04_facts_pinned)). Qed.
+Print Assumptions C04_state_after_simulate_partial.
+
+(** ... and continuing IS simulating in one go: [simulate t1; simulate t2] and [simulate t2] leave the
+    simulator at the same absolute time in the same state, whatever the two grids *)
+Theorem C04_segments_chain_partial :
+  forall (Y P : Type) (flow : P -> Q -> Y -> Q -> Y) (solve_ok : P -> Q -> Y -> Q -> bool),
+    (forall p t t' y d d', t == t' -> d == d' -> flow p t y d = flow p t' y d') ->
+    (forall p t y a b, 0 <= a -> 0 <= b -> flow p (t + a) (flow p t y a) b = flow p t y (a + b)) ->
+    (forall p t y t1, solve_ok p t y t1 = true) ->
+    forall (s : sim Y P) (t1 t2 : Q) (st1 st2 : option nat) (m1 m2 : nat),
+    Inv2 Y P s -> has_errors Y P s = false -> n_points st1 = S (S m1) -> n_points st2 = S (S m2) ->
+    reached Y P s < t1 -> t1 < t2 ->
+    let s12 := fst (simulate Y P flow solve_ok gen_sim_facts (fst (simulate Y P flow solve_ok gen_sim_facts s t1 st1)) t2 st2) in
+    let s2 := fst (simulate Y P flow solve_ok gen_sim_facts s t2 st2) in
+    i_y0 (s_int s12) = i_y0 (s_int s2)
+    /\ i_y0 (s_int s2) = flow (s_mp s) (reached Y P s) (i_y0 (s_int s)) (t2 - reached Y P s)
+    /\ reached Y P s12 == t2 /\ reached Y P s2 == t2.
+Proof. exact (fun Y P flow solve_ok => continuation_is_one_run Y P flow solve_ok gen_sim_facts (good_of_pinned _ C04_facts_pinned)). Qed.
+Print Assumptions C04_segments_chain_partial.
+
 (** KNOWN FINDING steady-state-resets-integrator: the guard [no_steady] cannot be dropped *)
 Theorem C04_steady_refuted :
   exists ops : list xop,
@@ -131,17 +171,20 @@ Proof.
 Qed.
 Print Assumptions C04_steady_refuted.
 
-(** KNOWN FINDING override-restarts-model-time: with dx/dt = time ([a] = 1), simulate(2);
-    update_variable(x, 2); simulate(4) stores x(4) = 4, while the solution from x(2) = 2 is 8:
-    the row is [flow p h ..] with [h] the integrator's shifted time 0, not the absolute time 2 *)
-Theorem C04_nonautonomous_refuted :
-  let s := xrun gen_sim_facts (xnew [0; 0] [0; 0; 1; 0])
-             [OSim 2 (Some 1%nat); OUpdVar [(0%nat, 2)]; OSim 4 (Some 1%nat)] in
-  map (fun sg => map (fun r => (Qred (fst r), snd r)) sg) (match s_vars s with Some l => l | None => [] end)
-    = [[(0, [0; 0]); (2, [2; 0])]; [(4, [4; 0])]]
+(** REPAIRED defect override-restarts-model-time (fixes/C04-override-time.diff), kept as a regression
+    witness: with dx/dt = time ([a] = 1), simulate(2); update_variable(x, 2); simulate(4) stored
+    x(4) = 4 on the facts of the unrepaired tree (the model saw the integrator's shifted time 0..2),
+    while the solution continued from x(2) = 2 in absolute time is 8 -- which is what the regenerated
+    facts give *)
+Theorem C04_shifted_time_refuted :
+  let ops : list xop := [OSim 2 (Some 1%nat); OUpdVar [(0%nat, 2)]; OSim 4 (Some 1%nat)] in
+  let rows fx := map (fun sg => map (fun r => (Qred (fst r), snd r)) sg)
+                     (match s_vars (xrun fx (xnew [0; 0] [0; 0; 1; 0]) ops) with Some l => l | None => [] end) in
+  rows shifted_time_facts = [[(0, [0; 0]); (2, [2; 0])]; [(4, [4; 0])]]
+  /\ rows gen_sim_facts = [[(0, [0; 0]); (2, [2; 0])]; [(4, [8; 0])]]
   /\ xflow [0; 0; 1; 0] 2 [2; 0] 2 = [8; 0].
-Proof. vm_compute. split; reflexivity. Qed.
-Print Assumptions C04_nonautonomous_refuted.
+Proof. vm_compute. repeat split; reflexivity. Qed.
+Print Assumptions C04_shifted_time_refuted.
 
 (** the two defects repaired by fixes/C04-*.diff, refuted on the facts of the UNREPAIRED tree:
     simulate(10); update_variable; simulate(15) is refused although 15 > 10, and
@@ -157,6 +200,14 @@ Theorem C04_unrepaired_refuted :
      = [5; 0].
 Proof. vm_compute. repeat split; reflexivity. Qed.
 Print Assumptions C04_unrepaired_refuted.
+
+(** non-vacuity of the hypotheses of [C04_segments_chain_partial]: the solution map of dx/dt = p
+    ([lin_flow p t y d = Qred (y + p * d)]) satisfies both of them *)
+Example C04_chain_hypotheses_nonvacuous :
+  (forall p t t' y d d', t == t' -> d == d' -> lin_flow p t y d = lin_flow p t' y d')
+  /\ (forall p t y a b, 0 <= a -> 0 <= b -> lin_flow p (t + a) (lin_flow p t y a) b = lin_flow p t y (a + b)).
+Proof. exact (conj lin_flow_ext lin_flow_semigroup). Qed.
+Print Assumptions C04_chain_hypotheses_nonvacuous.
 
 (** non-vacuity: a six-operation history meeting the hypotheses, with its result *)
 Example C04_nonvacuous :
